@@ -3,6 +3,13 @@
 import json, subprocess, sys
 
 CHECKS = {
+ "C10": dict(cat="exploration", tech="unique-id echo monitor at the client boundary under hook-placed cancellations and 2..32 concurrent callers, with the race detector",
+   text="Every call carries a unique id that the scripted server echoes, so each returned response names the request it answers. 200/6000 directed sequences put a cancellation before send, at the verif hook after the tx channel is loaded, at the hook between send and recv (response held back and released late), while the server holds the response, or by a 2 ms deadline, each followed by further calls on the same client; 40/3000 stress rounds run 2..32 goroutines x 6 calls on one client. A call may return an error or its own response only. Hook visit counters prove each window was hit.",
+   note="Interleavings are sampled; the send/recv gap is forced through the hook.", ref="§2 C10"),
+ "C11": dict(cat="fault_enumeration", tech="I/O-operation-indexed fault injection on an in-memory transport x fault kinds; transmission counters, recovery rule, goroutine census, directed hook schedules, race detector",
+   text="The scenario {Dial with negotiation, three calls, Close, call after Close, Close again} is rerun for every operation index 0..25 of the first connection (the scenario performs ~10) x 8 fault kinds (read EOF / closed / reset, write EPIPE / reset, short write, server closes after replying to / after reading request k); plus dialer failures during reconnect, 4/8/16 concurrent callers under a fault, and three directed schedules built with the verif hooks. Monitors: panic/crash, own-id response or error, never two consecutive failing calls while the server is reachable, <= 4 transmissions per request, calls fail after Close, no library goroutine left 10 s after closing.",
+   note="In-memory transport (TCP/TLS flavour not built); recovery rule as stated in the evidence assumptions.", ref="§2 C11"),
+
  "C12": dict(cat="exploration", tech="scripted-server response enumeration with panic monitor and (value, error) inspection for every client entry point",
    text="For 26 fluent builders, Client.Request, Client.Batch, the discovery exchange of Dial and Client.Signer, a scripted server answers with every combination of header batch count {0,1,2}, item count {0,1,2}, item operation {requested, other, unknown, absent}, status {Success, Failed, Pending, Undone, unknown}, reason {none, registered, unknown} and payload {absent, right, another operation's, opaque} (1443 shapes each, ~45k exchanges) plus 3k/200k random shapes with extensions; a call must return the requested operation's payload type or an error, never panic, and a failed item's error must carry the server's status, reason and message. The shape product is enumerated completely.",
    note="Unknown status/reason numbers have no name to look for in the error text; only err != nil is required there.", ref="§2 C12"),
